@@ -115,14 +115,7 @@ def _impl_real(case):
     m = [[6, 0, 0], [0, 6, 0], [0, 0, 6]]
     site_frac = [[0.0, 0.0, 0.0], [0.5, 0.0, 0.0], [0.0, 0.5, 0.0], [0.5, 0.5, 0.0]]
     T, na = case['T'], 3
-    pos = np.zeros((T, na, 3))
-    cur = [0, 1, 2]
-    for t in range(T):
-        for a in range(na):
-            if r.random() < 0.15:
-                cur[a] = int(r.integers(0, 4))
-            pos[t, a] = np.array(site_frac[cur[a]]) + r.normal(0, 0.01, 3)
-    traj = synth.make_traj(m, ['Li'] * na, np.mod(pos, 1))
+    traj = synth.make_traj(m, ['Li'] * na, synth.hopping_positions(r, T, na, site_frac))
     sites = synth.make_sites(m, site_frac)
     tr = traj.transitions_between_sites(sites, 'Li', site_radius=1.0)
     try:
